@@ -107,6 +107,20 @@ where
     let ends: Vec<f64> = pw.segments.iter().map(|s| s.end).collect();
     let ends = &ends[..];
     let detail = |obs: serde_json::Value| json!({"ends": fjs(ends), "piece_type": T::NAME, "pieces": pw.segments.iter().map(|s| fjs(&s.poly.nums())).collect::<Vec<_>>(), "observation": obs});
+    // the operand also with other allocation histories (spare capacity, truncated, grown by push): same result on bits
+    let modes: Vec<usize> = if pw.segments.len() <= 40 { (1..SLACK_MODES).collect() } else { vec![1 + pw.segments.len() % (SLACK_MODES - 1)] };
+    for m in modes {
+        let alt = pw_with_slack(pw, m);
+        match guard(|| alt.derivative()) {
+            Err(pn) => return Err(Fail::new(format!("Piecewise::derivative panicked: {pn}"), detail(json!({"allocation_history": m})))),
+            Ok(d2) => {
+                let same = guard(|| pw.derivative()).map_or(false, |d1| d1.segments.len() == d2.segments.len() && d1.segments.iter().zip(&d2.segments).all(|(a, b)| a.end.to_bits() == b.end.to_bits() && all_bits_eq(&a.poly.nums(), &b.poly.nums())));
+                if !same {
+                    return Err(Fail::new("Piecewise::derivative depends on the allocation history of the segments vector", detail(json!({"allocation_history": m}))));
+                }
+            }
+        }
+    }
     let r = guard(|| pw.derivative());
     cx.evals(1);
     let d = match r {
